@@ -3,11 +3,13 @@ CONSTANTS
   ROT = 1000
   LEN = 2
   MAC = 16
+  ActLen = 50
+  Act3Len = 66
   MaxSize = 65535
   ReaderStops = FALSE
   TrackUsed = FALSE
   ConnEmptyEOFQuirk = TRUE
-INVARIANTS ConformErr ConformFlush ConformPend ConformPipe ConformNonce ConformPayload ConformSize ConformConn KeyBijection
+INVARIANTS ConformErr ConformRemoteKey ConformFlush ConformPend ConformPipe ConformNonce ConformPayload ConformSize ConformConn KeyBijection
   TypeOK HsSound HsComplete HsWrongKey HsOrder KeysAgree InSync PrefixBeforeFailure ReadOkIffIntact ReadYieldsNext
   PristinePipe FlushCount NoNonceReuse DistinctSendKeys
 CHECK_DEADLOCK TRUE
